@@ -21,12 +21,12 @@ import (
 	"github.com/scionproto/scion/pkg/addr"
 	cryptopb "github.com/scionproto/scion/pkg/proto/crypto"
 	"github.com/scionproto/scion/pkg/scrypto"
-	"github.com/scionproto/scion/pkg/scrypto/signed"
 	"github.com/scionproto/scion/pkg/scrypto/cppki"
+	"github.com/scionproto/scion/pkg/scrypto/signed"
 	seg "github.com/scionproto/scion/pkg/segment"
 	"github.com/scionproto/scion/pkg/segment/extensions/discovery"
-	sqlitebeacon "github.com/scionproto/scion/private/storage/beacon/sqlite"
 	infra "github.com/scionproto/scion/private/segment/verifier"
+	sqlitebeacon "github.com/scionproto/scion/private/storage/beacon/sqlite"
 	"github.com/scionproto/scion/private/storage/db"
 	sqlitetrust "github.com/scionproto/scion/private/storage/trust/sqlite"
 	"github.com/scionproto/scion/private/topology"
@@ -133,6 +133,9 @@ type World struct {
 	net   *Network
 	id    uint64
 	ctx   context.Context
+	// xsched is set while several Extend calls of one AS run at the same time (concurrentExtend): every
+	// operation on a hop-field MAC is then a scheduling point of the seeded scheduler.
+	xsched *core.Sched
 
 	// epoch bookkeeping for the verifier cache (see advance)
 	epochStart time.Time
@@ -182,6 +185,9 @@ func linkName(t topology.LinkType) string {
 
 func (w *World) newIfID(a *AS) uint16 {
 	id := uint16(1 + w.r.Choice("ifid", 65535))
+	if w.r.Chance("ifid.small", 1, 2) {
+		id = uint16(1 + w.r.Choice("ifid.low", 4)) // operators number interfaces 1, 2, 3, ...: the same ids recur in every AS
+	}
 	for {
 		if _, ok := a.Intfs[id]; !ok && id != 0 {
 			return id
@@ -218,6 +224,9 @@ func (w *World) link(a, b *AS, ta topology.LinkType) {
 func (w *World) genTopology() {
 	r := w.r
 	nISD := 1 + r.Choice("topo.isds", 2)
+	// an AS number is not tied to one ISD: in some worlds the core ASes of different ISDs carry the
+	// same AS numbers (only the ISD-AS pair identifies an AS, and with it a link)
+	sharedASNumbers := nISD > 1 && r.Chance("topo.shared-as-numbers", 1, 3)
 	var all []*AS
 	cores := map[addr.ISD][]*AS{}
 	for i := 0; i < nISD; i++ {
@@ -225,7 +234,11 @@ func (w *World) genTopology() {
 		w.isdNo = append(w.isdNo, isd)
 		nCore := 1 + r.Choice("topo.cores", 3)
 		for c := 0; c < nCore; c++ {
-			a := &AS{Idx: len(all), IA: addr.MustIAFrom(isd, addr.AS(0xff00_0000_0100+uint64(i)*0x10+uint64(c))), Core: true,
+			asOff := uint64(i) * 0x10
+			if sharedASNumbers {
+				asOff = 0
+			}
+			a := &AS{Idx: len(all), IA: addr.MustIAFrom(isd, addr.AS(0xff00_0000_0100+asOff+uint64(c))), Core: true,
 				Intfs: map[uint16]*Intf{}}
 			all = append(all, a)
 			cores[isd] = append(cores[isd], a)
@@ -556,7 +569,7 @@ func (w *World) buildAS(a *AS) {
 			}
 			return out, nil
 		}),
-		MAC:                  a.MacFac,
+		MAC:                  func() hash.Hash { return &yieldHash{Hash: a.MacFac(), w: w} },
 		Intfs:                a.IfState,
 		MTU:                  a.MTU,
 		MaxExpTime:           func() uint8 { return a.Store.MaxExpTime(beacon.PropPolicy) },
@@ -670,3 +683,19 @@ func (w *World) close() {
 		a.TrustDB.Close()
 	}
 }
+
+// yieldHash wraps the hop-field MAC handed to the real extender: while concurrentExtend runs, every
+// operation on it parks the calling goroutine until the seeded scheduler grants it.
+type yieldHash struct {
+	hash.Hash
+	w *World
+}
+
+func (y *yieldHash) yield(site string) {
+	if s := y.w.xsched; s != nil {
+		s.Yield(site)
+	}
+}
+func (y *yieldHash) Write(b []byte) (int, error) { y.yield("mac.write"); return y.Hash.Write(b) }
+func (y *yieldHash) Sum(b []byte) []byte         { y.yield("mac.sum"); return y.Hash.Sum(b) }
+func (y *yieldHash) Reset()                      { y.yield("mac.reset"); y.Hash.Reset() }
